@@ -73,7 +73,7 @@ pub fn transform(ops: &[Op], rng: &mut Rng, kind: u64) -> Vec<Op> {
     }
     // injective relabelling of the resource universe
     let mut univ: Vec<Res> = (0..NTY).flat_map(|t| (0..NDY).map(move |d| (t, d))).collect();
-    let fixed: Vec<Res> = if has_ctl_data(ops) { vec![(0, 0), (1, 0), (2, 0)] } else { vec![] };
+    let fixed: Vec<Res> = if has_ctl_data(ops) { vec![(0, 0), (1, 0), (2, 0), (3, 0), (4, 0)] } else { vec![] };
     univ.retain(|r| !fixed.contains(r));
     let mut img = univ.clone();
     if kind & 2 != 0 {
